@@ -45,7 +45,12 @@ pub mod ext {
 
     #[verifier::external_type_specification]
     pub struct ExErrorKind(std::io::ErrorKind);
-    pub assume_specification [std::io::Error::kind] (e: &std::io::Error) -> (r: std::io::ErrorKind);
+    pub uninterp spec fn io_kind(e: std::io::Error) -> std::io::ErrorKind;
+    pub assume_specification [std::io::Error::kind] (e: &std::io::Error) -> (r: std::io::ErrorKind)
+        ensures r == io_kind(*e);
+    /// ASSUMED: `==` on ErrorKind (derived PartialEq of a field-less enum) is equality
+    pub assume_specification [<std::io::ErrorKind as PartialEq>::eq] (a: &std::io::ErrorKind, b: &std::io::ErrorKind) -> (r: bool)
+        ensures r == (*a == *b);
     /// stand-in for `Box<dyn std::error::Error + Sync + Send>` (rule R5: Verus rejects dyn with several traits)
     #[verifier::external_body]
     #[derive(Debug)]
